@@ -76,6 +76,9 @@ type Teamserver struct {
 	Clients    sync.Map // map[string]*Client
 	Users      []Users
 	EventsList []packager.Package
+	// EventsMutex guards EventsList: it is appended to by listener goroutines and by
+	// every operator's handler, pruned on listener removal and read for each newcomer
+	EventsMutex sync.Mutex
 	Service    *service.Service
 	WebHooks   *webhook.WebHook
 	DB         *db.DB
